@@ -145,11 +145,11 @@ def programs(draw):
             if k == "do_for":
                 return ["do_for", names, *dur()]
             return ["do_until", names, cond()]
-        if k == "terminate":
-            return ["if", cond(), [["terminate"]], []] if draw(st.integers(0, 3)) else ["terminate"]
-        if k == "terminate_sim":
-            return ["if", cond(), [["terminate_sim"]], []] if draw(st.integers(0, 3)) \
-                else ["terminate_sim"]
+        if k in ("terminate", "terminate_sim"):
+            # mostly guarded by an atom that becomes true later in the run
+            if draw(st.integers(0, 5)):
+                return ["if", draw(st.sampled_from(ATOMS)), [[k]], []]
+            return [k]
         if k == "require":
             a = draw(st.sampled_from(ATOMS))
             return ["require", a if draw(st.integers(0, 4)) == 0 else "!" + a]
@@ -171,8 +171,8 @@ def programs(draw):
             body.append(["while", None, ensure_yield(block("beh", 1, i, 2), "beh")])
         if not has_yielding(body):  # a behaviour must contain a take/wait/do somewhere
             body.append(["take", draw(st.integers(1, 9))])
-        behaviors.append({"name": f"B{i}", "pre": [gcond()] if draw(st.integers(0, 9)) == 0 else [],
-                          "inv": [gcond()] if draw(st.integers(0, 6)) == 0 else [],
+        behaviors.append({"name": f"B{i}", "pre": [gcond()] if draw(st.integers(0, 14)) == 0 else [],
+                          "inv": [gcond()] if draw(st.integers(0, 9)) == 0 else [],
                           "body": body})
     monitors = []
     for i in range(nm):
@@ -229,9 +229,9 @@ def programs(draw):
         if comp is not None and not has_yielding(comp):
             comp.append(["wait"])
         pre, inv = [], []
-        if draw(st.integers(0, 5)) == 0:
+        if draw(st.integers(0, 7)) == 0:
             pre.append(gcond())
-        if draw(st.integers(0, 3)) == 0:
+        if draw(st.integers(0, 4)) == 0:
             inv.append(gcond())
         scenarios.append({"name": "Main" if i == 0 else f"S{i}", "pre": pre, "inv": inv,
                           "setup": setup(i), "compose": comp})
